@@ -484,15 +484,19 @@ func (s *Server) handleRPCReplenishAccounts(stream net.Conn) error {
 
 	var depositSum types.Currency
 	var costResp rhp4.RPCReplenishAccountsResponse
+	// an account may be listed more than once; later entries must take the
+	// deposits of earlier ones into account
+	pending := make(map[rhp4.Account]types.Currency)
 	for i, balance := range balances {
 		deposit := rhp4.AccountDeposit{
 			Account: req.Accounts[i],
 		}
 
-		value, underflows := req.Target.SubWithUnderflow(balance)
+		value, underflows := req.Target.SubWithUnderflow(balance.Add(pending[deposit.Account]))
 		if !underflows {
 			deposit.Amount = value
 		}
+		pending[deposit.Account] = pending[deposit.Account].Add(deposit.Amount)
 		depositSum = depositSum.Add(deposit.Amount)
 		costResp.Deposits = append(costResp.Deposits, deposit)
 	}
@@ -556,14 +560,18 @@ func (s *Server) handleRPCReplenishPools(stream net.Conn) error {
 
 	var depositSum types.Currency
 	var costResp rhp4.RPCReplenishAccountsResponse
+	// a pool may be listed more than once; later entries must take the
+	// deposits of earlier ones into account
+	pending := make(map[rhp4.Account]types.Currency)
 	for i, balance := range balances {
 		deposit := rhp4.AccountDeposit{
 			Account: req.Accounts[i],
 		}
-		value, underflows := req.Target.SubWithUnderflow(balance)
+		value, underflows := req.Target.SubWithUnderflow(balance.Add(pending[deposit.Account]))
 		if !underflows {
 			deposit.Amount = value
 		}
+		pending[deposit.Account] = pending[deposit.Account].Add(deposit.Amount)
 		depositSum = depositSum.Add(deposit.Amount)
 		costResp.Deposits = append(costResp.Deposits, deposit)
 	}
